@@ -145,6 +145,24 @@ ALIAS_BASSES = ["E", "Bb"]
 ALIAS_PARTNER = "G7"
 
 
+OTHER_SPELLINGS = {}
+
+
+def spelling_variant(sh, spelling, alt):
+    """the alias spelling `spelling` of shorthand `sh` with each quality word swapped for another alias of the same
+    family (min <-> mi <-> -, maj <-> ma); None when nothing changes"""
+    out = spelling
+    for fam in (("min", "mi", "-"), ("maj", "ma")):
+        for w in fam:
+            if w in out:
+                for v in fam:
+                    if v != w and v == alt:
+                        out = out.replace(w, v)
+                        break
+                break
+    return out if out != spelling else None
+
+
 def run_alias(case):
     S = engine.S
     root, sh, spelling = case
@@ -161,6 +179,14 @@ def run_alias(case):
         sites.append((root + spelling + "|" + ALIAS_PARTNER, fold_poly(partner, base)[0]))
         sites.append((ALIAS_PARTNER + "|" + root + spelling, fold_poly(base, partner)[0]))
     sites.append((root + spelling + "|" + root + spelling, fold_poly(base, base)[0]))
+    # the two halves of a polychord may spell the same quality differently (Amin7|A-7): still the same chords
+    if spelling != sh:
+        sites.append((root + spelling + "|" + root + sh, fold_poly(base, base)[0]))
+        sites.append((root + sh + "|" + root + spelling, fold_poly(base, base)[0]))
+    for alt in ("min", "mi", "-", "maj", "ma"):
+        other = spelling_variant(sh, spelling, alt)
+        if other is not None:
+            sites.append((root + spelling + "|" + root + other, fold_poly(base, base)[0]))
     for text, want in sites:
         got, e = call(chords.from_shorthand, text)
         S.trans(1)
@@ -238,10 +264,24 @@ def run_special(case):
     S = engine.S
     S.sample(case)
     if case == "NC":
-        got, e = call(chords.from_shorthand, "NC")
-        S.trans(1)
-        if e is not None or got != []:
-            S.problem("from_shorthand('NC')", [], got if e is None else err_name(e))
+        for spelled in ("NC", "N.C."):
+            got, e = call(chords.from_shorthand, spelled)
+            S.trans(1)
+            if e is not None or got != []:
+                S.problem("from_shorthand(%r)" % spelled, [], got if e is None else err_name(e))
+            # the empty chord stays empty whatever happened to earlier answers and whatever was built around it
+            if isinstance(got, list):
+                got.extend(["C", "E", "G"])
+            for around in ("Am|" + spelled, spelled + "|Am", [spelled, "Am"]):
+                call(chords.from_shorthand, around)              # may raise (an empty half is not judged)
+            again, e2 = call(chords.from_shorthand, spelled)
+            S.trans(5)
+            if e2 is not None or again != []:
+                S.problem("from_shorthand(%r) asked again after the first answer was extended and the chord was used inside other strings" % spelled,
+                          [], again if e2 is None else err_name(e2))
+            inside, e3 = call(chords.from_shorthand, ["C", spelled])
+            if e3 is None and (not isinstance(inside, list) or len(inside) != 2 or inside[1] != []):
+                S.problem("from_shorthand(['C', %r])[1]" % spelled, [], inside)
         S.outcome("NC")
         return
     items = list(case)
